@@ -104,5 +104,100 @@ def main():
                "n_snapshot": len(ufl.classes.all_ufl_classes)}, sys.stdout)
 
 
+
+# ------------------------------------------------------------------------------------------------
+# "pub" mode: public algorithms / real algorithm classes applied to an instance of a type registered
+# late, with or without having been used before the registration.
+
+def pub_drivers(names):
+    import importlib
+
+    from ufl.corealg.map_dag import map_expr_dag
+    out = {}
+    for nm in names:
+        kind, _, ref = nm.partition(":")
+        try:
+            if kind in ("mapdag", "visit"):
+                mod, _, cn = ref.rpartition(".")
+                cls = getattr(importlib.import_module(mod), cn)      # instantiated only when the driver runs
+                if kind == "mapdag":
+                    out[nm] = (lambda e, cls=cls: map_expr_dag(cls(), e))
+                else:
+                    out[nm] = (lambda e, cls=cls: cls().visit(e))
+            elif kind == "fn":
+                mod, _, fn = ref.rpartition(".")
+                f = getattr(importlib.import_module(mod), fn)
+                out[nm] = f
+            elif kind == "sort":
+                from ufl.sorting import sorted_expr
+                out[nm] = (lambda e: sorted_expr([e, 2 * e, e])[0])
+            elif kind == "glp":      # apply_geometry_lowering with a preserved type
+                from ufl.algorithms.apply_geometry_lowering import apply_geometry_lowering
+                P = getattr(ufl.classes, ref)
+                out[nm] = (lambda e, P=P: apply_geometry_lowering(e, (P,)))
+        except Exception:      # noqa: BLE001
+            continue
+    return out
+
+
+def outcome(f, e):
+    from ufl.corealg.traversal import unique_post_traversal
+    try:
+        r = f(e)
+    except Exception as ex:      # noqa: BLE001
+        return "EXC:" + type(ex).__name__
+    if isinstance(r, Expr):
+        return "ok:" + ",".join(type(x).__name__ for x in unique_post_traversal(r))[:400]
+    return "ok:" + type(r).__name__
+
+
+def pub_main(job):
+    import uflgen
+    from ufl.geometry import GeometricQuantity
+    mesh = uflgen.mesh()
+    f, g = uflgen.coef(()), uflgen.coef(())
+    v = uflgen.coef((2,))
+    byname = {c.__name__: c for c in Expr._ufl_all_classes_}
+    ops = {"Sum": f + g, "Product": f * g, "Division": f / g, "Sin": ufl.sin(f), "Abs": abs(f), "Power": f ** g,
+           "Grad": ufl.grad(f), "Div": ufl.div(v), "Sqrt": ufl.sqrt(f), "Conj": ufl.conj(f), "Inner": ufl.inner(v, v)}
+    P = byname[job["parent"]]
+    if issubclass(P, GeometricQuantity):
+        old = P(mesh)
+        build = lambda cls: cls(mesh)      # noqa: E731
+    else:
+        old = ops[job["parent"]]
+        build = lambda cls: cls(*old.ufl_operands)      # noqa: E731
+    drivers = pub_drivers(job["drivers"])
+    res = {"before": {}, "new": {}, "old_after": {}}
+    if job["use_before"]:
+        for nm, d in drivers.items():
+            res["before"][nm] = outcome(d, old)
+    base = P
+    for i in range(job.get("chain", 1)):
+        cls = type(f"Late{i}{P.__name__}", (base,), {"__slots__": ()})
+        cls = ufl_type()(cls)
+        base = cls
+    new = build(base)
+    if type(new) is not base:
+        json.dump({"skip": f"constructor of {base.__name__} returned {type(new).__name__}"}, sys.stdout)
+        return
+    for nm, d in drivers.items():
+        res["new"][nm] = outcome(d, new)
+        res["old_after"][nm] = outcome(d, old)
+    res["drivers"] = sorted(drivers)
+    json.dump(res, sys.stdout)
+
+
+_old_main = main
+
+
+def main():      # noqa: F811
+    job = json.load(sys.stdin)
+    if job.get("mode") == "pub":
+        return pub_main(job)
+    sys.stdin = __import__("io").StringIO(json.dumps(job))
+    return _old_main()
+
+
 if __name__ == "__main__":
     main()
